@@ -75,7 +75,7 @@ func (l *Lexer) nextInsideToken() token.Token {
 			tokSplit := strings.Split(tok.Literal, ".")
 			switch {
 			case len(tokSplit) > 2:
-				return l.newIllegalTokenLiteral(token.ILLEGAL, tok.Literal)
+				return l.newIllegalTokenLiteral(token.ILLEGAL, tok.Literal, startLine)
 			case len(tokSplit) == 2:
 				tok.Type = "FLOAT"
 			default:
@@ -207,7 +207,7 @@ func (l *Lexer) nextInsideToken() token.Token {
 			tokSplit := strings.Split(tok.Literal, ".")
 			switch {
 			case len(tokSplit) > 2:
-				return l.newIllegalTokenLiteral(token.ILLEGAL, tok.Literal)
+				return l.newIllegalTokenLiteral(token.ILLEGAL, tok.Literal, startLine)
 			case len(tokSplit) == 2:
 				tok.Type = "FLOAT"
 			default:
@@ -360,6 +360,8 @@ func (l *Lexer) newToken(tokenType token.Type) token.Token {
 	return token.Token{Type: tokenType, Literal: string(l.ch), LineNumber: l.curLine}
 }
 
-func (l *Lexer) newIllegalTokenLiteral(tokenType token.Type, literal string) token.Token {
-	return token.Token{Type: tokenType, Literal: literal, LineNumber: l.curLine}
+// newIllegalTokenLiteral stamps the token with the line it starts on: by the
+// time the literal has been read the scanner may already be on the next line
+func (l *Lexer) newIllegalTokenLiteral(tokenType token.Type, literal string, line int) token.Token {
+	return token.Token{Type: tokenType, Literal: literal, LineNumber: line}
 }
